@@ -45,13 +45,20 @@ theorem rawSlice_suffix (l : Bits) (B : Nat) : rawSlice l (some (-(B : Int))) no
     apply List.take_of_length_le
     simp; omega
 
-theorem rawSlice_range (l : Bits) (a b : Int) (h0 : 0 ≤ a) (h1 : a ≤ b) (h2 : b ≤ l.length) :
+theorem rawSlice_range (l : Bits) (a b : Int) (h0 : 0 ≤ a) (h1 : a ≤ l.length) (h2 : 0 ≤ b) (h3 : b ≤ l.length) :
     rawSlice l (some a) (some b) = (l.drop a.toNat).take (b - a).toNat := by
   simp only [rawSlice, sliceIndices_step1]
   have ha : ¬ (a < 0) := by omega
   have hb : ¬ (b < 0) := by omega
   simp only [ha, hb, if_false]
   rw [show min a (l.length : Int) = a by omega, show min b (l.length : Int) = b by omega]
+
+/-- The indices `slice.indices(n)` returns lie in `[0, n]`. -/
+theorem sliceIndices_step1_bounds (s e : Option Int) (n : Nat) :
+    0 ≤ (Py.sliceIndices s e 1 n).1 ∧ (Py.sliceIndices s e 1 n).1 ≤ n ∧
+    0 ≤ (Py.sliceIndices s e 1 n).2.1 ∧ (Py.sliceIndices s e 1 n).2.1 ≤ n := by
+  rw [sliceIndices_step1]
+  cases s <;> cases e <;> simp only <;> (repeat' split) <;> omega
 
 /-! ### well-formed stores -/
 
@@ -69,7 +76,7 @@ theorem wf_bits (st : Store) (h : st.wf) : st.bits = st.raw := by
     have := h m hm
     subst this
     simp only [sliceIndices_step1]
-    rw [rawSlice_range _ _ _ (by omega) (by omega) (by omega)]
+    rw [rawSlice_range _ _ _ (by omega) (by omega) (by omega) (by omega)]
     simp
 
 theorem wf_tobytes (st : Store) (h : st.wf) : st.tobytes = toBytes st.raw := by
@@ -81,76 +88,64 @@ theorem wf_tobytes (st : Store) (h : st.wf) : st.tobytes = toBytes st.raw := by
     subst this
     simp only [rawSlice_prefix, List.take_length]
 
-theorem getSliceMsb0_prefix (st : Store) (h : st.wf) (A : Nat) :
-    st.getSliceMsb0 none (some (A : Int)) = { raw := st.raw.take A } := by
-  unfold Store.getSliceMsb0
+/-- On a well-formed store the `modified_length` normalisation of `getslice_msb0` changes nothing. -/
+theorem getsliceMsb0_wf (st : Store) (h : st.wf) (s e : Option Int) :
+    st.getsliceMsb0 s e = { raw := rawSlice st.raw s e } := by
+  unfold Store.getsliceMsb0
   cases hm : st.modLen with
-  | none => simp only [rawSlice_prefix]
+  | none => rfl
   | some m =>
     have := h m hm
     subst this
-    simp only [sliceIndices_step1]
-    have hA : ¬ ((A : Int) < 0) := by omega
-    simp only [hA, if_false]
-    rw [rawSlice_range _ _ _ (by omega) (by omega) (by omega)]
-    simp only [Int.toNat_zero, List.drop_zero, Int.sub_zero]
-    rw [show (min (A : Int) (st.raw.length : Int)).toNat = min A st.raw.length by omega, ← List.take_eq_take_min]
+    obtain ⟨b1, b2, b3, b4⟩ := sliceIndices_step1_bounds s e st.raw.length
+    simp only
+    rw [rawSlice_range _ _ _ b1 b2 b3 b4]
+    rfl
 
-theorem getSliceMsb0_suffix (st : Store) (h : st.wf) (B : Nat) :
-    st.getSliceMsb0 (some (-(B : Int))) none = { raw := pySuffix B st.raw } := by
-  unfold Store.getSliceMsb0
-  cases hm : st.modLen with
-  | none => simp only [rawSlice_suffix]
-  | some m =>
-    have := h m hm
-    subst this
-    simp only [sliceIndices_step1, pySuffix]
-    by_cases hB : B = 0
-    · subst hB
-      simp only [Int.natCast_zero, Int.neg_zero, Int.lt_irrefl, if_false, if_true]
-      rw [rawSlice_range _ _ _ (by omega) (by omega) (by omega)]
-      simp
-    · have hlt : (-(B : Int)) < 0 := by omega
-      simp only [hlt, if_true, hB, if_false]
-      rw [rawSlice_range _ _ _ (by omega) (by omega) (by omega)]
-      rw [show (max (-(B : Int) + (st.raw.length : Int)) 0).toNat = st.raw.length - B by omega]
-      congr 1
-      apply List.take_of_length_le
-      simp; omega
+theorem absoluteSlice_prefix (st : Store) (h : st.wf) (A : Nat) :
+    absoluteSlice st 0 (A : Int) = .ok { raw := st.raw.take A } := by
+  unfold absoluteSlice
+  by_cases hA : A = 0
+  · subst hA; simp
+  · have h1 : ¬ ((A : Int) = 0) := by omega
+    have h2 : (0 : Int) < (A : Int) := by omega
+    simp only [h1, if_false, h2, not_true_eq_false, getsliceMsb0_wf st h]
+    congr 2
+    simp only [rawSlice, sliceIndices_step1]
+    have h3 : ¬ ((A : Int) < 0) := by omega
+    simp only [Int.lt_irrefl, h3, if_false]
+    rw [show (min (0 : Int) (st.raw.length : Int)).toNat = 0 by omega,
+      show (min (A : Int) (st.raw.length : Int) - min (0 : Int) (st.raw.length : Int)).toNat = min A st.raw.length by omega]
+    rw [List.drop_zero, ← List.take_eq_take_min]
 
-theorem getSliceLsb0_prefix (st : Store) (h : st.wf) (A : Nat) :
-    st.getSliceLsb0 none (some (A : Int)) = { raw := st.raw.drop (st.raw.length - A) } := by
-  unfold Store.getSliceLsb0
-  rw [wf_len st h]
-  simp only [sliceIndices_step1, Int.ediv_one, Int.mul_one]
-  have hA : ¬ ((A : Int) < 0) := by omega
-  simp only [hA, if_false]
-  rw [rawSlice_range _ _ _ (by omega) (by omega) (by omega)]
-  congr 1
-  rw [show ((st.raw.length : Int) - (0 + (min (A : Int) (st.raw.length : Int) - 1 - 0)) - 1).toNat = st.raw.length - A by omega]
-  apply List.take_of_length_le
-  simp; omega
-
-theorem getSliceLsb0_suffix (st : Store) (h : st.wf) (B : Nat) :
-    st.getSliceLsb0 (some (-(B : Int))) none = { raw := if B = 0 then st.raw else st.raw.take B } := by
-  unfold Store.getSliceLsb0
-  rw [wf_len st h]
-  simp only [sliceIndices_step1, Int.ediv_one, Int.mul_one]
+theorem absoluteSlice_suffix (st : Store) (h : st.wf) (B : Nat) :
+    absoluteSlice st ((st.raw.length : Int) - (B : Int)) (st.raw.length : Int) = .ok { raw := absSuffix B st.raw } := by
+  unfold absoluteSlice absSuffix
   by_cases hB : B = 0
-  · subst hB
-    simp only [Int.natCast_zero, Int.neg_zero, Int.lt_irrefl, if_false, if_true]
-    rw [rawSlice_range _ _ _ (by omega) (by omega) (by omega)]
-    congr 1
-    rw [show ((st.raw.length : Int) - (min 0 (st.raw.length : Int) + ((st.raw.length : Int) - 1 - min 0 (st.raw.length : Int))) - 1).toNat = 0 by omega]
-    simp
-  · have hlt : (-(B : Int)) < 0 := by omega
-    simp only [hlt, if_true, hB, if_false]
-    rw [rawSlice_range _ _ _ (by omega) (by omega) (by omega)]
-    congr 1
-    rw [show ((st.raw.length : Int) - (max (-(B : Int) + (st.raw.length : Int)) 0 + ((st.raw.length : Int) - 1 - max (-(B : Int) + (st.raw.length : Int)) 0)) - 1).toNat = 0 by omega]
-    simp only [List.drop_zero]
-    rw [show ((st.raw.length : Int) - max (-(B : Int) + (st.raw.length : Int)) 0 - ((st.raw.length : Int) - (max (-(B : Int) + (st.raw.length : Int)) 0 + ((st.raw.length : Int) - 1 - max (-(B : Int) + (st.raw.length : Int)) 0)) - 1)).toNat = min B st.raw.length by omega]
-    rw [← List.take_eq_take_min]
+  · subst hB; simp
+  · have h1 : ¬ ((st.raw.length : Int) = (st.raw.length : Int) - (B : Int)) := by omega
+    have h2 : (st.raw.length : Int) - (B : Int) < (st.raw.length : Int) := by omega
+    simp only [h1, if_false, h2, not_true_eq_false, getsliceMsb0_wf st h, hB]
+    congr 2
+    simp only [rawSlice, sliceIndices_step1]
+    have h3 : ¬ ((st.raw.length : Int) < 0) := by omega
+    simp only [h3, if_false]
+    by_cases hle : B ≤ st.raw.length
+    · have h4 : ¬ ((st.raw.length : Int) - (B : Int) < 0) := by omega
+      simp only [h4, if_false, hle, if_true]
+      rw [show (min ((st.raw.length : Int) - (B : Int)) (st.raw.length : Int)).toNat = st.raw.length - B by omega]
+      apply List.take_of_length_le
+      simp only [List.length_drop]; omega
+    · have h4 : (st.raw.length : Int) - (B : Int) < 0 := by omega
+      simp only [h4, if_true, hle, if_false]
+      rw [show (max ((st.raw.length : Int) - (B : Int) + (st.raw.length : Int)) 0).toNat = 2 * st.raw.length - B by omega]
+      apply List.take_of_length_le
+      simp only [List.length_drop]; omega
+
+theorem absSuffix_eq_drop (B : Nat) (s : Bits) (h0 : 0 < B) (h : B ≤ s.length) :
+    absSuffix B s = s.drop (s.length - B) := by
+  have : B ≠ 0 := by omega
+  simp [absSuffix, this, h]
 
 theorem add_plain (x y : Bits) : Store.add { raw := x } { raw := y } = { raw := x ++ y } := by
   unfold Store.add Store.copyRaw
